@@ -329,25 +329,35 @@ func ruleFloatText(c *Ctx, r *Report) {
 		r.undecided(rule, "anchor:Float.WriteTerm", "-", "locate the float writer", "not found")
 	} else {
 		found := false
-		eachInstr(fw, func(in ssa.Instruction) {
-			call, ok := in.(*ssa.Call)
-			if !ok {
-				return
+		// the writer itself and the library functions it statically calls (the formatting may live in a helper)
+		scope := []*ssa.Function{fw}
+		for _, fn := range c.LibFuncs() {
+			if fn != fw && fn.Parent() == nil && c.isLibPkg(funcPkg(fn)) && c.staticallyReaches(fw, fn) {
+				scope = append(scope, fn)
 			}
-			f := call.Call.StaticCallee()
-			if f == nil || f.Pkg == nil || f.Pkg.Pkg.Path() != "strconv" || f.Name() != "FormatFloat" {
-				return
-			}
-			found = true
-			prec, okP := constInt(call.Call.Args[2])
-			bits, okB := constInt(call.Call.Args[3])
-			key := fname(fw) + "/FormatFloat"
-			if okP && okB && prec == -1 && bits == 64 {
-				r.ok(rule, key, c.at(call), "floats are written with the shortest representation that reads back to the same float64", "strconv.FormatFloat(_, _, -1, 64)", false)
-			} else {
-				r.bad(rule, key, c.at(call), "floats are written with the shortest representation that reads back to the same float64", fmt.Sprintf("precision=%d bitSize=%d: a fixed precision loses bits, so the text does not read back bit-for-bit", prec, bits))
-			}
-		})
+		}
+		for _, sfn := range scope {
+			sfn := sfn
+			eachInstr(sfn, func(in ssa.Instruction) {
+				call, ok := in.(*ssa.Call)
+				if !ok {
+					return
+				}
+				f := call.Call.StaticCallee()
+				if f == nil || f.Pkg == nil || f.Pkg.Pkg.Path() != "strconv" || f.Name() != "FormatFloat" {
+					return
+				}
+				found = true
+				prec, okP := constInt(call.Call.Args[2])
+				bits, okB := constInt(call.Call.Args[3])
+				key := fname(sfn) + "/FormatFloat"
+				if okP && okB && prec == -1 && bits == 64 {
+					r.ok(rule, key, c.at(call), "floats are written with the shortest representation that reads back to the same float64", "strconv.FormatFloat(_, _, -1, 64)", false)
+				} else {
+					r.bad(rule, key, c.at(call), "floats are written with the shortest representation that reads back to the same float64", fmt.Sprintf("precision=%d bitSize=%d: a fixed precision loses bits, so the text does not read back bit-for-bit", prec, bits))
+				}
+			})
+		}
 		if !found {
 			r.bad(rule, fname(fw)+"/FormatFloat", c.Pos(fw.Pos()), "floats are written with strconv.FormatFloat", "no FormatFloat call in the float writer")
 		}
